@@ -262,6 +262,327 @@ Section BNodes.
     Qed.
   End Fixed.
 
+  (* ---------------- Loop1CharBody ---------------- *)
+  Section L1.
+    Variable dg : nat -> bool.
+    Notation leq := (leq dg).
+    Notation leq_out := (leq_out dg).
+    Notation Qback := (Qback dg).
+    Variables (fwd : bool) (G : list groupdata) (mn : N) (mx : option N) (gr : bool).
+    Variable stepf : nat -> option (option nat).
+    Variable chk : nat -> nat -> bool.
+    Variable m : nat -> R (option nat).
+    Let MX := max_val mx.
+    Let back (q : nat) := if fwd then ix_next_left_pos ix h q else ix_next_right_pos ix h q.
+    Let forth (q : nat) := if fwd then ix_next_right_pos ix h q else ix_next_left_pos ix h q.
+    Let dist (q : nat) : nat := if fwd then (length h - q)%nat else q.
+    Hypothesis Hm : forall q r, stepf q = Some r -> m q = Ok r.
+    Hypothesis Hchk : forall q q', chk q q' = true ->
+      (q <= length h)%nat /\ (q' <= length h)%nat /\ (if fwd then q < q' else q' < q)%nat /\
+      back q' = Ok (Some q) /\ forth q = Ok (Some q').
+    Hypothesis Hmm : mn <= MX.
+
+    Lemma chk_dist q q' : chk q q' = true -> (dist q' < dist q)%nat /\ (q <= length h)%nat /\ (q' <= length h)%nat.
+    Proof. intro H. destruct (Hchk q q' H) as (H1 & H2 & H3 & _). unfold dist. destruct fwd; lia. Qed.
+
+    Definition fuel_ok (fuel q : nat) : Prop := (1 <= fuel)%nat /\ ((q <= length h)%nat -> (dist q < fuel)%nat).
+
+    Lemma exact_phase : forall lf k q l fuel,
+      l1_results stepf chk G mn mx gr lf k q = Some l -> k <= mn -> fuel_ok fuel q ->
+      (scm_exact m fuel (mn - k) q = Ok None /\ l = []) \/
+      (exists qmin lf', scm_exact m fuel (mn - k) q = Ok (Some qmin) /\
+                        l1_results stepf chk G mn mx gr lf' mn qmin = Some l /\ fuel_ok fuel qmin).
+    Proof.
+      induction lf as [|lf IH]; intros k q l fuel Hr Hk Hf; [discriminate|].
+      destruct (N.eq_dec k mn) as [->|Hne].
+      - right. exists q, (S lf). replace (mn - mn) with 0 by lia.
+        destruct fuel; simpl; auto.
+      - cbn [l1_results] in Hr.
+        assert (Hlt : k <? max_val mx = true) by (apply N.ltb_lt; unfold MX in Hmm; lia). rewrite Hlt in Hr.
+        assert (Hc0 : (mn - k =? 0) = false) by (apply N.eqb_neq; lia).
+        assert (Hmk : (mn <=? k) = false) by (apply N.leb_gt; lia). rewrite Hmk in Hr.
+        destruct Hf as [Hf1 Hf2]. destruct fuel as [|fuel']; [lia|].
+        destruct (stepf q) as [[q'|]|] eqn:Es; [| |discriminate].
+        + destruct (chk q q') eqn:Ec; [|discriminate].
+          destruct (l1_results stepf chk G mn mx gr lf (k + 1) q') as [it|] eqn:Ei; [|discriminate].
+          inversion Hr; subst l. destruct (chk_dist q q' Ec) as (D1 & D2 & D3).
+          assert (Hf' : fuel_ok fuel' q') by (split; [|intros _]; specialize (Hf2 D2); lia).
+          destruct (IH (k + 1) q' it fuel' Ei ltac:(lia) Hf') as [[He ->]|(qmin & lf' & He & Hl & Hfq)].
+          * left. split; [|reflexivity]. cbn [scm_exact]. rewrite Hc0. rewrite (Hm q _ Es). cbn [bindR].
+            replace (mn - k - 1) with (mn - (k + 1)) by lia. exact He.
+          * right. exists qmin, lf'. split; [|split; [exact Hl|]].
+            -- cbn [scm_exact]. rewrite Hc0. rewrite (Hm q _ Es). cbn [bindR].
+               replace (mn - k - 1) with (mn - (k + 1)) by lia. exact He.
+            -- destruct Hfq as [F1 F2]. split; [lia|]. intro Hq. specialize (F2 Hq). lia.
+        + inversion Hr; subst l. left. split; [|reflexivity].
+          cbn [scm_exact]. rewrite Hc0. rewrite (Hm q _ Es). reflexivity.
+    Qed.
+
+    Fixpoint path (l : list nat) : Prop :=
+      match l with
+      | a :: ((b :: _) as t) => chk a b = true /\ path t
+      | _ => True
+      end.
+
+    Lemma last_nonempty_default (t : list nat) : forall b d d', last (b :: t) d = last (b :: t) d'.
+    Proof. induction t as [|c t IH]; intros b d d'; [reflexivity|]. cbn [last] in *. apply (IH c d d'). Qed.
+    Lemma last_cons_default (a b d : nat) t : last (a :: b :: t) d = last (b :: t) b.
+    Proof. change (last (a :: b :: t) d) with (last (b :: t) d). apply last_nonempty_default. Qed.
+
+    Lemma upto_phase : forall lf k q l fuel,
+      l1_results stepf chk G mn mx gr lf k q = Some l -> mn <= k -> fuel_ok fuel q ->
+      exists rest, path (q :: rest) /\ scm_upto m fuel (MX - k) q = Ok (last (q :: rest) q) /\
+                   l = map (fun x => (x, G)) (if gr then rev (q :: rest) else q :: rest).
+    Proof.
+      induction lf as [|lf IH]; intros k q l fuel Hr Hk Hf; [discriminate|].
+      cbn [l1_results] in Hr.
+      assert (Hmk : (mn <=? k) = true) by (apply N.leb_le; exact Hk). rewrite Hmk in Hr.
+      destruct Hf as [Hf1 Hf2]. destruct fuel as [|fuel']; [lia|].
+      destruct (k <? max_val mx) eqn:Elt.
+      - apply N.ltb_lt in Elt. assert (Hc0 : (MX - k =? 0) = false) by (apply N.eqb_neq; unfold MX; lia).
+        destruct (stepf q) as [[q'|]|] eqn:Es; [| |discriminate].
+        + destruct (chk q q') eqn:Ec; [|discriminate].
+          destruct (l1_results stepf chk G mn mx gr lf (k + 1) q') as [it|] eqn:Ei; [|discriminate].
+          inversion Hr; subst l. destruct (chk_dist q q' Ec) as (D1 & D2 & D3).
+          assert (Hf' : fuel_ok fuel' q') by (split; [|intros _]; specialize (Hf2 D2); lia).
+          destruct (IH (k + 1) q' it fuel' Ei ltac:(lia) Hf') as (rest' & Hp & Hu & ->).
+          exists (q' :: rest'). split; [split; assumption|]. split.
+          * cbn [scm_upto]. rewrite Hc0. rewrite (Hm q _ Es). cbn [bindR].
+            replace (MX - k - 1) with (MX - (k + 1)) by lia. rewrite Hu. f_equal. symmetry. apply last_cons_default.
+          * destruct gr.
+            -- change (rev (q :: q' :: rest')) with (rev (q' :: rest') ++ [q]). rewrite map_app. reflexivity.
+            -- reflexivity.
+        + inversion Hr; subst l. exists []. split; [exact I|]. split.
+          * cbn [scm_upto]. rewrite Hc0. rewrite (Hm q _ Es). reflexivity.
+          * destruct gr; reflexivity.
+      - apply N.ltb_ge in Elt. inversion Hr; subst l. exists []. split; [exact I|]. split.
+        + replace (MX - k) with 0 by (unfold MX; lia). destruct fuel'; reflexivity.
+        + destruct gr; reflexivity.
+    Qed.
+
+    Lemma path_app_last : forall l a z, path (a :: l ++ [z]) -> path (a :: l) /\ chk (last (a :: l) a) z = true.
+    Proof.
+      induction l as [|b l IH]; intros a z H.
+      - simpl in H. destruct H as [H _]. split; [exact I|exact H].
+      - cbn [app path] in H. destruct H as [H1 H2]. destruct (IH b z H2) as [P1 P2].
+        split; [split; assumption|]. rewrite last_cons_default. exact P2.
+    Qed.
+
+    Lemma path_last_ne : forall l a, path (a :: l) -> l <> [] -> last (a :: l) a <> a.
+    Proof.
+      assert (Hmono : forall l a, path (a :: l) -> (if fwd then a <= last (a :: l) a else last (a :: l) a <= a)%nat /\
+                                                  (l <> [] -> last (a :: l) a <> a)).
+      { induction l as [|b l IH]; intros a H.
+        - simpl. split; [destruct fwd; lia|congruence].
+        - cbn [path] in H. destruct H as [H1 H2]. destruct (Hchk a b H1) as (_ & _ & H3 & _).
+          destruct (IH b H2) as [I1 _]. rewrite last_cons_default. split; [destruct fwd; lia|intros _; destruct fwd; lia]. }
+      intros l a H. apply Hmono. exact H.
+    Qed.
+
+    Variables (cont lo hi : nat) (L0 : list loopdata).
+
+    (* greedy: the positions are given back from the last one down to the first by stepping back one character *)
+    Lemma greedy_enum : forall rest q c0 L B, path (q :: rest) -> leq_out lo hi L0 L ->
+      leads fwd c0 (RC cont (last (q :: rest) q) L G (BGreedyLoop1Char cont q (last (q :: rest) q) :: B)) ->
+      chain dg fwd cont (leq_out lo hi L0) c0 (map (fun x => (x, G)) (rev (q :: rest))) (Qback L G B).
+    Proof.
+      intros rest. induction rest as [|z rest0 IH] using rev_ind; intros q c0 L B Hp HL Hl.
+      - simpl in *. eapply (ch_cons ix prog h dg fwd cont _ _ (q, G) [] _ L (BGreedyLoop1Char cont q q :: B)); [exact Hl|exact HL|].
+        intros L' HL'. cbn [snd]. eapply (ch_nil ix prog h dg fwd cont _ _ _ (BK L' G B)); [exists L'; auto|].
+        apply back_step. unfold bt_back. rewrite Nat.eqb_refl. reflexivity.
+      - destruct (path_app_last rest0 q z Hp) as [Hp0 Hcz].
+        set (y := last (q :: rest0) q) in *.
+        assert (Hlast : last (q :: rest0 ++ [z]) q = z).
+        { change (q :: rest0 ++ [z]) with ((q :: rest0) ++ [z]). apply last_last. }
+        rewrite Hlast in Hl.
+        assert (Hzq : z <> q).
+        { pose proof (path_last_ne (rest0 ++ [z]) q Hp) as Hne. rewrite Hlast in Hne. apply Hne. destruct rest0; discriminate. }
+        change (q :: rest0 ++ [z]) with ((q :: rest0) ++ [z]). rewrite rev_unit. cbn [map].
+        eapply (ch_cons ix prog h dg fwd cont _ _ (z, G) _ _ L (BGreedyLoop1Char cont q z :: B)); [exact Hl|exact HL|].
+        intros L' HL'. cbn [snd].
+        destruct (Hchk y z Hcz) as (_ & _ & _ & Hb & _).
+        eapply chain_weaken; [intros L1 H1; exact H1| |eapply (IH q _ L' B Hp0)].
+        + intros cf Hcf. eapply Qback_weaken; eauto.
+        + eapply leq_out_trans; [exact HL|apply leq_leq_out; exact HL'].
+        + apply back_step. unfold bt_back.
+          replace (z =? q)%nat with false by (symmetry; apply Nat.eqb_neq; exact Hzq).
+          unfold back in Hb. rewrite Hb. reflexivity.
+    Qed.
+
+    (* lazy: the positions are tried from the first one up to the last by stepping forward one character *)
+    Lemma lazy_enum : forall rest q c0 L B qe, path (q :: rest) -> qe = last (q :: rest) q -> leq_out lo hi L0 L ->
+      leads fwd c0 (RC cont q L G (BNonGreedyLoop1Char cont q qe :: B)) ->
+      chain dg fwd cont (leq_out lo hi L0) c0 (map (fun x => (x, G)) (q :: rest)) (Qback L G B).
+    Proof.
+      induction rest as [|q' rest IH]; intros q c0 L B qe Hp Hqe HL Hl.
+      - simpl in *. subst qe.
+        eapply (ch_cons ix prog h dg fwd cont _ _ (q, G) [] _ L (BNonGreedyLoop1Char cont q q :: B)); [exact Hl|exact HL|].
+        intros L' HL'. cbn [snd]. eapply (ch_nil ix prog h dg fwd cont _ _ _ (BK L' G B)); [exists L'; auto|].
+        apply back_step. unfold bt_back. rewrite Nat.eqb_refl. reflexivity.
+      - cbn [map]. cbn [path] in Hp. destruct Hp as [Hc Hp'].
+        assert (Hne : qe <> q).
+        { subst qe. apply (path_last_ne (q' :: rest) q); [split; assumption|discriminate]. }
+        eapply (ch_cons ix prog h dg fwd cont _ _ (q, G) _ _ L (BNonGreedyLoop1Char cont q qe :: B)); [exact Hl|exact HL|].
+        intros L' HL'. cbn [snd].
+        destruct (Hchk q q' Hc) as (_ & _ & _ & _ & Hfo).
+        eapply chain_weaken; [intros L1 H1; exact H1| |eapply (IH q' _ L' B qe Hp')].
+        + intros cf Hcf. eapply Qback_weaken; eauto.
+        + rewrite Hqe. apply last_cons_default.
+        + eapply leq_out_trans; [exact HL|apply leq_leq_out; exact HL'].
+        + apply back_step. unfold bt_back.
+          replace (qe =? q)%nat with false by (symmetry; apply Nat.eqb_neq; exact Hne).
+          unfold forth in Hfo. rewrite Hfo. reflexivity.
+    Qed.
+  End L1.
+
+  (* the single-character matcher the backtracker dispatches to for the instruction after Loop1CharBody *)
+  Definition bt_taken (bi : insn) (fwd : bool) (q : nat) : R (option nat) :=
+    match bi with
+    | Char c => char_bt ix c fwd h q
+    | ByteSeq bs => match_bytes fwd h q bs
+    | bi => match match1 ix prog bi fwd h q with Some r => r | None => Err Unreach end
+    end.
+
+  Definition scm_insn_ok (bi : insn) : bool :=
+    match bi with
+    | Char _ | CharSet _ | ByteSet _ | AsciiBracket _ | Bracket _ | MatchAny | MatchAnyExceptLT => true
+    | ByteSeq bs => (length bs <=? 6)%nat
+    | _ => false
+    end.
+
+  Lemma scm_dispatch_ok ip fwd bi : nth_error (p_insns prog) (S ip) = Some bi -> scm_insn_ok bi = true ->
+    exists m, scm_dispatch ix prog h ip fwd = Ok (Some m) /\ forall q, m q = bt_taken bi fwd q.
+  Proof.
+    intros Hi Hok. unfold scm_dispatch. rewrite Hi.
+    destruct bi; simpl in Hok; try discriminate; cbn [match1];
+      first [ (unfold bt_taken, char_bt; destruct (ix_elem_of_u32 ix c); eexists; split; reflexivity)
+            | (rewrite Hok; eexists; split; reflexivity)
+            | (eexists; split; reflexivity) ].
+  Qed.
+
+  Lemma scm_exact_ext (m1 m2 : nat -> R (option nat)) : (forall q, m1 q = m2 q) ->
+    forall fuel count p, scm_exact m1 fuel count p = scm_exact m2 fuel count p.
+  Proof.
+    intro He. induction fuel as [|f IH]; intros count p; cbn [scm_exact]; [reflexivity|].
+    destruct (count =? 0); [reflexivity|]. rewrite He. destruct (m2 p) as [e|[p'|]]; cbn [bindR]; auto.
+  Qed.
+  Lemma scm_upto_ext (m1 m2 : nat -> R (option nat)) : (forall q, m1 q = m2 q) ->
+    forall fuel count p, scm_upto m1 fuel count p = scm_upto m2 fuel count p.
+  Proof.
+    intro He. induction fuel as [|f IH]; intros count p; cbn [scm_upto]; [reflexivity|].
+    destruct (count =? 0); [reflexivity|]. rewrite He. destruct (m2 p) as [e|[p'|]]; cbn [bindR]; auto.
+  Qed.
+
+  Lemma pike_bt_taken bi fwd q r : scm_insn_ok bi = true -> pike_taken ix prog h bi fwd q = Ok r -> bt_taken bi fwd q = Ok r.
+  Proof.
+    intros Hok. destruct bi; simpl in Hok; try discriminate; unfold pike_taken, bt_taken; cbn [match1]; auto.
+    apply char_bt_pike; exact Hix_elem.
+  Qed.
+
+  Lemma step_inv_facts fwd q q' : step_inv ix h fwd q q' = true ->
+    (q <= length h)%nat /\ (q' <= length h)%nat /\ (if fwd then q < q' else q' < q)%nat /\
+    (if fwd then ix_next_left_pos ix h q' else ix_next_right_pos ix h q') = Ok (Some q) /\
+    (if fwd then ix_next_right_pos ix h q else ix_next_left_pos ix h q) = Ok (Some q').
+  Proof.
+    unfold step_inv.
+    destruct (if fwd then ix_next_left_pos ix h q' else ix_next_right_pos ix h q') as [e|[a|]]; try discriminate.
+    destruct (if fwd then ix_next_right_pos ix h q else ix_next_left_pos ix h q) as [e|[b|]]; try discriminate.
+    intro H. repeat (apply andb_true_iff in H as [H ?]).
+    apply Nat.eqb_eq in H. subst a.
+    match goal with H1 : (b =? q')%nat = true |- _ => apply Nat.eqb_eq in H1; subst b end.
+    repeat match goal with H1 : (_ <=? _)%nat = true |- _ => apply Nat.leb_le in H1 end.
+    repeat split; auto. destruct fwd; match goal with H1 : (_ <? _)%nat = true |- _ => apply Nat.ltb_lt in H1; exact H1 end.
+  Qed.
+
+  Lemma byte_sequence_single lb bs bi : emit_byte_sequence lb bs = [bi] -> bi = ByteSeq bs.
+  Proof.
+    unfold emit_byte_sequence. destruct bs as [|b0 t]; [destruct lb; discriminate|].
+    set (n := length t).
+    change (chunks16 (S (length (b0 :: t))) (b0 :: t)) with (firstn 16 (b0 :: t) :: chunks16 (S n) (skipn 16 (b0 :: t))).
+    destruct (skipn 16 (b0 :: t)) as [|x r] eqn:Es.
+    - assert (Hfn : firstn 16 (b0 :: t) = b0 :: t) by (rewrite <- (firstn_skipn 16 (b0 :: t)) at 2; rewrite Es, app_nil_r; reflexivity).
+      rewrite Hfn. cbn [chunks16]. destruct lb; cbn [rev app map]; intro H; inversion H; reflexivity.
+    - cbn [chunks16]. intro H. apply (f_equal (@length insn)) in H. rewrite map_length in H.
+      destruct lb; [rewrite rev_length in H|]; cbn [length] in H; lia.
+  Qed.
+
+  Lemma bt_l1 dg f fwd ng body mn mx gr off es code es' pos G l :
+    bt_wf ng (NLoop1CharBody body mn mx gr) = true ->
+    ir_results ix (p_unicode prog) utf16 h (S f) (NLoop1CharBody body mn mx gr) fwd (pos, G) = Some l ->
+    emit_node utf16 (p_unicode prog) (NLoop1CharBody body mn mx gr) off (negb fwd) es = Ok (code, es') ->
+    code_at prog off code -> brackets_ok prog es' ->
+    forall L B,
+    chain dg fwd (off + length code) (leq_out dg (es_next_loop es) (es_next_loop es') L) (RC off pos L G B) l (Qback dg L G B).
+  Proof.
+    intros Hwf Hr He Hc Hbr L B.
+    simpl in Hwf. unfold bt_l1_ok in Hwf. apply andb_true_iff in Hwf as [Hwf Hmm]. apply andb_true_iff in Hwf as [Hbok Hshape].
+    apply N.leb_le in Hmm.
+    cbn [ir_results] in Hr.
+    destruct (single_step ix (p_unicode prog) h (negb fwd) body fwd) as [stepf|] eqn:Ess; [|discriminate].
+    simpl in He.
+    destruct (emit_node utf16 (p_unicode prog) body (S off) (negb fwd) es) as [e|[cb eb]] eqn:Eb; simpl in He; [discriminate|].
+    inversion He; subst code es'. clear He.
+    apply code_at_cons in Hc as [Hi0 Hcb].
+    destruct (l1_body_insn ix prog h utf16 body fwd (S off) es cb eb stepf Hbok Ess Eb Hbr) as (bi & -> & Hnl & Hst & Hkind).
+    apply code_at_cons in Hcb as [Hib _].
+    (* the dispatched matcher *)
+    assert (Hbiok : scm_insn_ok bi = true).
+    { destruct Hkind as [[Hlc Hsimp]|(idx & ->)]; [|reflexivity].
+      destruct body as [ | |c|bs|bs|cs|l0|a b| | |sol ml|inv ui|id c nm|g ic|b|alts icase|ng0 bw sg eg c|body' mn' mx' gr' egs ege|body' mn' mx' gr'];
+        simpl in Hlc; try discriminate; try (inversion Hlc; subst bi; reflexivity).
+      - (* ByteSequence *)
+        inversion Hlc as [Hl']. apply byte_sequence_single in Hl'. subst bi. simpl. exact Hshape.
+      - (* ByteSet *)
+        unfold emit_byte_set in Hlc. destruct bs as [|b0 [|b1 [|b2 [|b3 [|b4 t]]]]]; simpl in Hlc; try discriminate; inversion Hlc; subst bi; reflexivity.
+      - (* CharSet *)
+        unfold emit_char_set in Hlc. destruct cs as [|c0 t]; [discriminate|].
+        destruct (4 <? length (c0 :: t))%nat; inversion Hlc; subst bi; reflexivity.
+      - (* Bracket *)
+        destruct (bracket_as_ascii b); inversion Hlc; subst bi; reflexivity. }
+    destruct (scm_dispatch_ok off fwd bi Hib Hbiok) as (m & Hdisp & Hmq).
+    assert (Hm : forall q r, stepf q = Some r -> m q = Ok r).
+    { intros q r Hs. rewrite Hmq. apply pike_bt_taken; [exact Hbiok|]. rewrite Hst in Hs.
+      destruct (pike_taken ix prog h bi fwd q); inversion Hs; reflexivity. }
+    pose proof (step_inv_facts fwd) as Hchk.
+    set (len := length h).
+    assert (Hfuel : fuel_ok fwd (S len) pos).
+    { split; [lia|]. intro Hp. unfold len. destruct fwd; lia. }
+    replace (off + length [Loop1CharBody mn match mx with Some v => v | None => USIZE_MAX end gr; bi])%nat with (off + 2)%nat by (simpl; lia).
+    assert (Hrun : forall c', bt_exec ix prog h BBudget L G B fwd off pos = BSNext c' -> leads fwd (RC off pos L G B) c').
+    { intros c' Hx. eapply (run_step ix prog h fwd off pos L G B _ c' Hi0 eq_refl Hx). }
+    assert (Hexec : bt_exec ix prog h BBudget L G B fwd off pos =
+                    bt_scm_loop ix prog h L G B fwd pos mn (max_val mx) off gr).
+    { unfold bt_exec. rewrite Hi0. reflexivity. }
+    unfold bt_scm_loop in Hexec. rewrite Hdisp in Hexec.
+    destruct (exact_phase fwd G mn mx gr stepf (step_inv ix h fwd) m Hm Hchk Hmm f 0 pos l (S len) Hr ltac:(lia) Hfuel)
+      as [[He ->]|(qmin & lf' & He & Hl & Hfq)];
+      rewrite N.sub_0_r in He; fold len in Hexec; rewrite He in Hexec.
+    - eapply chain_none; [apply Hrun; exact Hexec|apply leq_refl].
+    - destruct (upto_phase fwd G mn mx gr stepf (step_inv ix h fwd) m Hm Hchk Hmm lf' mn qmin l (S len) Hl ltac:(lia) Hfq)
+        as (rest & Hp & Hu & ->).
+      set (qe := last (qmin :: rest) qmin) in *.
+      assert (Hmax : (if mn <? max_val mx then scm_upto m (S len) (max_val mx - mn) qmin else Ok qmin) = Ok qe).
+      { destruct (mn <? max_val mx) eqn:E; [exact Hu|].
+        apply N.ltb_ge in E. replace (max_val mx - mn) with 0 in Hu by lia. cbn [scm_upto] in Hu.
+        replace (0 =? 0) with true in Hu by reflexivity. exact Hu. }
+      rewrite Hmax in Hexec.
+      destruct (Nat.eq_dec qmin qe) as [Heq|Hne].
+      + (* a single position *)
+        assert (Hrest : rest = []).
+        { destruct rest as [|z r0]; [reflexivity|]. exfalso.
+          apply (path_last_ne fwd mn mx (step_inv ix h fwd) Hchk Hmm (z :: r0) qmin Hp); [discriminate|]. symmetry. exact Heq. }
+        subst rest. rewrite <- Heq in Hexec. rewrite Nat.eqb_refl in Hexec.
+        replace (if gr then qmin else qmin) with qmin in Hexec by (destruct gr; reflexivity).
+        replace (map (fun x => (x, G)) (if gr then rev [qmin] else [qmin])) with [(qmin, G)] by (destruct gr; reflexivity).
+        apply chain_single; [apply Hrun; exact Hexec|apply leq_leq_out, leq_refl].
+      + replace (qmin =? qe)%nat with false in Hexec by (symmetry; apply Nat.eqb_neq; exact Hne).
+        destruct gr.
+        * apply (greedy_enum dg fwd G mn mx (step_inv ix h fwd) Hchk Hmm (off + 2)%nat _ _ L rest qmin _ L B Hp (leq_leq_out dg _ _ _ _ (leq_refl dg L))).
+          apply Hrun. exact Hexec.
+        * apply (lazy_enum dg fwd G mn mx (step_inv ix h fwd) Hchk Hmm (off + 2)%nat _ _ L rest qmin _ L B qe Hp eq_refl (leq_leq_out dg _ _ _ _ (leq_refl dg L))).
+          apply Hrun. exact Hexec.
+  Qed.
+
   Section Cases.
     Variable f : nat.
     Hypothesis IHf : bnode_ok f.
@@ -944,6 +1265,6 @@ Section BNodes.
         eapply (bt_strset dg fwd icase pos G); eauto.
       + eapply (bt_look f IHf dg fwd ng neg bw sg eg c); eauto.
       + eapply (bt_loop f IHf dg fwd ng body mn mx gr egs ege); eauto.
-      + discriminate Hwf.
+      + eapply (bt_l1 dg f fwd ng body mn mx gr); eauto.
   Qed.
 End BNodes.
